@@ -1,7 +1,826 @@
-//! C20 — not implemented yet (see DESIGN.md section 4).
-use kit::Run;
-use serde_json::Value;
+//! C20 — redaction removes exactly the requested assertions and stays verifiable.
+//!
+//! S-inp, three parts, each exhaustive over its stated space:
+//!  (1) builder chains through the public Builder (`definition.redactions` + `c2pa.redacted` actions):
+//!      A <- B (every subset of A's K redactable assertions), A <- B <- C (B redacts S1 of A; C redacts every subset of
+//!      what is left of A and every subset of B's), and the diamond A <- {B1 redacting S1, B2 redacting S2} <- C
+//!      redacting S3 (conflict resolution between two differently redacted copies of A);
+//!  (2) disallowed targets through the Builder (actions, hard binding, own assertion, each combined with every subset of
+//!      allowed ones) and, because the Builder refuses them, the same redactions CRAFTED at byte level: the active claim's
+//!      CBOR gets a `redacted_assertions` entry, the target assertion box is deleted from the store, the claim is re-signed;
+//!  (3) post-hoc deletion: every assertion box of every manifest of A<-B stores deleted without a redaction entry
+//!      (with and without a legitimate redaction of another assertion in the same manifest); the store must still parse.
+//! Oracle (property text): after a successful redacting sign the output bytes contain none of the redacted assertions'
+//! marker payloads, read back Valid/Trusted, the active manifest lists exactly the requested redactions, unrequested
+//! marker payloads are still there; every disallowed / undeclared case is a sign error or reads not Valid.
+//!
+//! Mutants caught (tools/mutant_run.sh I <diff> C20 quick):
+//!   /verif/mutants/C20-hash-redaction-allowed.diff   (verify_internal no longer rejects redacted c2pa.hash.* assertions)
+//!   /verif/mutants/C20-missing-assertion-ignored.diff (an assertion listed by the claim but absent from the store is ignored)
+//!   /verif/mutants/C20-redaction-not-applied.diff    (Claim::redact_assertion reports success without removing the assertion)
 
-pub fn run(_run: &Run, _replay: Option<&Value>) {
-    kit::ev::machinery("C20: check not implemented");
+use c2pa::{Builder, BuilderIntent, Reader};
+use kit::{cbor, par, sdk, Run};
+use serde_json::{json, Value};
+use std::{collections::BTreeSet, io::Cursor, sync::Mutex};
+
+const MIME: &str = "image/jpeg";
+
+fn marker(who: &str, i: usize) -> String {
+    format!("VERIF-MARK-{who}-{i}-7c1f93ab")
+}
+fn alabel(who: &str, i: usize) -> String {
+    // mixed kinds: plain custom CBOR assertions and one schema.org JSON-LD assertion
+    if i == 2 {
+        "stds.schema-org.CreativeWork".to_string()
+    } else {
+        format!("org.verif.{}{}", who.to_lowercase(), i)
+    }
+}
+
+fn definition(who: &str, k: usize, label: Option<&str>) -> String {
+    let mut assertions = vec![];
+    for i in 0..k {
+        if i == 2 {
+            assertions.push(json!({"label": alabel(who, i), "data": {"@context":"https://schema.org","@type":"CreativeWork","author":[{"@type":"Person","name": marker(who, i)}]}}));
+        } else {
+            assertions.push(json!({"label": alabel(who, i), "data": {"marker": marker(who, i), "n": i}}));
+        }
+    }
+    let mut d = json!({"title": who, "claim_generator_info":[{"name":"verif","version":"1"}], "assertions": assertions});
+    if let Some(l) = label {
+        d["label"] = json!(l);
+    }
+    d.to_string()
+}
+
+fn uri(manifest: &str, assertion: &str) -> String {
+    c2pa::verif_hooks::label::to_assertion_uri(manifest, assertion)
+}
+
+fn contains(hay: &[u8], needle: &[u8]) -> bool {
+    hay.windows(needle.len()).any(|w| w == needle)
+}
+
+/// Sign `src` (Edit intent: the source becomes the parent ingredient when it carries a manifest) with definition `def`,
+/// redacting `redactions`, with extra ingredients. Returns signed bytes.
+fn sign_step(def: &str, redactions: &[String], extra_ingredients: &[&[u8]], src: &[u8], first: bool) -> Result<c2pa::Result<Vec<u8>>, String> {
+    par::guard(|| {
+        let mut b = Builder::from_context(sdk::ctx()).with_definition(def)?;
+        if first {
+            b.set_intent(BuilderIntent::Create(c2pa::DigitalSourceType::Empty));
+        } else {
+            b.set_intent(BuilderIntent::Edit);
+        }
+        for (i, ing) in extra_ingredients.iter().enumerate() {
+            b.add_ingredient_from_stream(json!({"title": format!("extra{i}"), "relationship": "componentOf"}).to_string(), MIME, &mut Cursor::new(*ing))?;
+        }
+        if !redactions.is_empty() {
+            b.definition.redactions = Some(redactions.to_vec());
+            for r in redactions {
+                b.add_action(json!({"action":"c2pa.redacted","reason":"c2pa.PII.present","parameters":{"redacted": r}}))?;
+            }
+        }
+        let signer = sdk::fixture_signer("ed25519");
+        let mut dst = Cursor::new(Vec::new());
+        b.sign(signer.as_ref(), MIME, &mut Cursor::new(src), &mut dst)?;
+        Ok(dst.into_inner())
+    })
+}
+
+struct ReadBack {
+    state: String,
+    failures: Vec<String>,
+    active_label: String,
+    active_redactions: BTreeSet<String>,
+}
+
+fn read_back(bytes: &[u8]) -> Result<ReadBack, String> {
+    match par::guard(|| Reader::from_context(sdk::ctx()).with_stream(MIME, Cursor::new(bytes))) {
+        Err(p) => Err(format!("PANIC {p}")),
+        Ok(Err(e)) => Err(format!("Err({})", sdk::err_kind(&e))),
+        Ok(Ok(r)) => {
+            let mut failures: Vec<String> = r
+                .validation_results()
+                .and_then(|v| serde_json::to_value(v).ok())
+                .map(|v| {
+                    let mut f = vec![];
+                    collect_failures(&v, false, &mut f);
+                    f
+                })
+                .unwrap_or_default();
+            failures.sort();
+            failures.dedup();
+            Ok(ReadBack {
+                state: sdk::state_name(r.validation_state()).to_string(),
+                failures,
+                active_label: r.active_label().unwrap_or("").to_string(),
+                active_redactions: r.active_manifest().and_then(|m| m.redactions()).map(|r| r.iter().cloned().collect()).unwrap_or_default(),
+            })
+        }
+    }
+}
+
+fn collect_failures(v: &Value, in_failure: bool, out: &mut Vec<String>) {
+    match v {
+        Value::Object(m) => {
+            if in_failure {
+                if let Some(c) = m.get("code").and_then(|c| c.as_str()) {
+                    out.push(c.to_string());
+                }
+            }
+            for (k, x) in m {
+                collect_failures(x, in_failure || k == "failure", out);
+            }
+        }
+        Value::Array(a) => a.iter().for_each(|x| collect_failures(x, in_failure, out)),
+        _ => {}
+    }
+}
+
+fn subset(mask: u32, k: usize) -> Vec<usize> {
+    (0..k).filter(|i| mask >> i & 1 == 1).collect()
+}
+
+/// Judge one successful redacting step. `requested`: (owner, index, uri) redacted by this step; `gone_before`: markers redacted earlier
+/// on the same linear chain; `present`: markers that must still be present.
+#[allow(clippy::too_many_arguments)]
+fn judge_step(
+    run: &Run,
+    shape: &str,
+    out: &[u8],
+    requested: &[(String, usize, String)],
+    gone_before: &[(String, usize)],
+    present: &[(String, usize)],
+    case: &Value,
+    demand_valid: bool,
+    may_also_list: &BTreeSet<String>,
+) {
+    let rb = match read_back(out) {
+        Ok(rb) => rb,
+        Err(e) => {
+            run.outcome(format!("{shape}:read-{}", e.split(' ').next().unwrap_or("")));
+            if demand_valid {
+                run.violation(format!("unreadable-after-redaction shape={shape} result={}", e.split(' ').next().unwrap_or("")), format!("output of a redacting sign cannot be read: {e}"), case.clone());
+            }
+            return;
+        }
+    };
+    run.outcome(format!("{shape}:{}", rb.state));
+    for (who, i, _) in requested {
+        if contains(out, marker(who, *i).as_bytes()) {
+            run.violation(
+                format!("redacted-data-present shape={shape} owner={who}"),
+                format!("output still contains the payload of redacted assertion {} of manifest {who}", alabel(who, *i)),
+                case.clone(),
+            );
+        }
+    }
+    for (who, i) in gone_before {
+        if contains(out, marker(who, *i).as_bytes()) {
+            run.violation(
+                format!("earlier-redacted-data-reappears shape={shape} owner={who}"),
+                format!("payload of {} of {who}, redacted by an earlier manifest of the same chain, is present again", alabel(who, *i)),
+                case.clone(),
+            );
+        }
+    }
+    for (who, i) in present {
+        if !contains(out, marker(who, *i).as_bytes()) {
+            run.violation(
+                format!("unrequested-removed shape={shape} owner={who}"),
+                format!("payload of {} of {who} disappeared although its redaction was not requested", alabel(who, *i)),
+                case.clone(),
+            );
+        }
+    }
+    if demand_valid && rb.state != "Valid" && rb.state != "Trusted" {
+        run.violation(
+            format!("invalid-after-redaction shape={shape} codes={}", rb.failures.join(",")),
+            format!("output of a successful redacting sign reads {} with {:?}", rb.state, rb.failures),
+            case.clone(),
+        );
+    }
+    let want: BTreeSet<String> = requested.iter().map(|r| r.2.clone()).collect();
+    let extra_ok = rb.active_redactions.difference(&want).all(|u| may_also_list.contains(u));
+    if !(want.is_subset(&rb.active_redactions) && extra_ok) {
+        run.violation(
+            format!("redactions-list-mismatch shape={shape} requested={} reported={}", want.len(), rb.active_redactions.len()),
+            format!("requested {:?}, active manifest reports {:?}", want, rb.active_redactions),
+            case.clone(),
+        );
+    }
+}
+
+// ------------------------------------------------------------------------------------------------------
+// JUMBF tree (independent of the SDK): parse, edit, serialise with recomputed sizes
+// ------------------------------------------------------------------------------------------------------
+#[derive(Clone, Debug, PartialEq)]
+enum JB {
+    Super { children: Vec<JB> },
+    Leaf { typ: [u8; 4], data: Vec<u8> },
+}
+
+fn jb_parse(d: &[u8], depth: usize) -> Result<Vec<JB>, String> {
+    if depth > 16 {
+        return Err("too deep".into());
+    }
+    let mut v = vec![];
+    let mut p = 0;
+    while p < d.len() {
+        if p + 8 > d.len() {
+            return Err("stray bytes".into());
+        }
+        let size = u32::from_be_bytes(d[p..p + 4].try_into().unwrap()) as usize;
+        let typ: [u8; 4] = d[p + 4..p + 8].try_into().unwrap();
+        if size < 8 || p + size > d.len() {
+            return Err(format!("box size {size} at {p}"));
+        }
+        let body = &d[p + 8..p + size];
+        v.push(if &typ == b"jumb" { JB::Super { children: jb_parse(body, depth + 1)? } } else { JB::Leaf { typ, data: body.to_vec() } });
+        p += size;
+    }
+    Ok(v)
+}
+
+fn jb_write(b: &JB, out: &mut Vec<u8>) {
+    match b {
+        JB::Leaf { typ, data } => {
+            out.extend_from_slice(&((data.len() + 8) as u32).to_be_bytes());
+            out.extend_from_slice(typ);
+            out.extend_from_slice(data);
+        }
+        JB::Super { children } => {
+            let mut body = vec![];
+            for c in children {
+                jb_write(c, &mut body);
+            }
+            out.extend_from_slice(&((body.len() + 8) as u32).to_be_bytes());
+            out.extend_from_slice(b"jumb");
+            out.extend_from_slice(&body);
+        }
+    }
+}
+
+fn jb_label(b: &JB) -> Option<String> {
+    if let JB::Super { children } = b {
+        if let Some(JB::Leaf { typ, data }) = children.first() {
+            if typ == b"jumd" && data.len() > 17 && data[16] & 0x02 != 0 {
+                let l = &data[17..];
+                let n = l.iter().position(|&c| c == 0).unwrap_or(l.len());
+                return Some(String::from_utf8_lossy(&l[..n]).into_owned());
+            }
+        }
+    }
+    None
+}
+
+fn jb_child_mut<'a>(b: &'a mut JB, label: &str) -> Option<&'a mut JB> {
+    if let JB::Super { children } = b {
+        children.iter_mut().find(|c| jb_label(c).as_deref() == Some(label))
+    } else {
+        None
+    }
+}
+
+fn jb_child_labels(b: &JB) -> Vec<String> {
+    if let JB::Super { children } = b {
+        children.iter().filter_map(jb_label).collect()
+    } else {
+        vec![]
+    }
+}
+
+struct StoreTree {
+    root: JB,
+}
+impl StoreTree {
+    fn parse(d: &[u8]) -> Result<Self, String> {
+        let mut v = jb_parse(d, 0)?;
+        if v.len() != 1 {
+            return Err("store is not a single superbox".into());
+        }
+        let t = StoreTree { root: v.remove(0) };
+        if t.bytes() != d {
+            return Err("JUMBF tree does not round-trip".into());
+        }
+        Ok(t)
+    }
+    fn bytes(&self) -> Vec<u8> {
+        let mut o = vec![];
+        jb_write(&self.root, &mut o);
+        o
+    }
+    fn manifests(&self) -> Vec<String> {
+        jb_child_labels(&self.root)
+    }
+    fn assertions(&self, manifest: &str) -> Vec<String> {
+        if let JB::Super { children } = &self.root {
+            for m in children {
+                if jb_label(m).as_deref() == Some(manifest) {
+                    if let JB::Super { children: mc } = m {
+                        for b in mc {
+                            if jb_label(b).as_deref() == Some("c2pa.assertions") {
+                                return jb_child_labels(b);
+                            }
+                        }
+                    }
+                }
+            }
+        }
+        vec![]
+    }
+    fn delete_assertion(&mut self, manifest: &str, assertion: &str) -> Result<(), String> {
+        let m = jb_child_mut(&mut self.root, manifest).ok_or("manifest not found")?;
+        let a = jb_child_mut(m, "c2pa.assertions").ok_or("assertion store not found")?;
+        if let JB::Super { children } = a {
+            let i = children.iter().position(|c| jb_label(c).as_deref() == Some(assertion)).ok_or("assertion not found")?;
+            children.remove(i);
+            Ok(())
+        } else {
+            Err("assertion store is not a superbox".into())
+        }
+    }
+    /// content of the single content box of manifest/<boxlabel> (claim or signature)
+    fn content_mut(&mut self, manifest: &str, prefix: &str) -> Result<&mut Vec<u8>, String> {
+        let m = jb_child_mut(&mut self.root, manifest).ok_or("manifest not found")?;
+        if let JB::Super { children } = m {
+            for c in children.iter_mut() {
+                if jb_label(c).map(|l| l.starts_with(prefix)).unwrap_or(false) {
+                    if let JB::Super { children: cc } = c {
+                        for leaf in cc.iter_mut() {
+                            if let JB::Leaf { typ, data } = leaf {
+                                if typ == b"cbor" {
+                                    return Ok(data);
+                                }
+                            }
+                        }
+                    }
+                }
+            }
+        }
+        Err(format!("no {prefix} content box"))
+    }
+    /// Add redaction URIs to the claim of `manifest` and re-sign it with the Ed25519 fixture signer.
+    fn add_redactions_and_resign(&mut self, manifest: &str, uris: &[String]) -> Result<(), String> {
+        let claim = self.content_mut(manifest, "c2pa.claim")?;
+        let mut v = cbor::decode(claim)?;
+        if cbor::encode(&v) != *claim {
+            return Err("claim CBOR does not round-trip".into());
+        }
+        let arr: Vec<cbor::V> = uris.iter().map(|u| cbor::V::text(u)).collect();
+        match v.get_mut("redacted_assertions") {
+            Some(cbor::V::A(a)) => a.extend(arr),
+            _ => {
+                if let cbor::V::M(m) = &mut v {
+                    m.push((cbor::V::text("redacted_assertions"), cbor::V::A(arr)));
+                } else {
+                    return Err("claim is not a map".into());
+                }
+            }
+        }
+        let new_claim = cbor::encode(&v);
+        *claim = new_claim.clone();
+        let sig = self.content_mut(manifest, "c2pa.signature")?;
+        let signer = sdk::fixture_signer("ed25519");
+        let new_sig = c2pa::verif_hooks::cose_sign_unchecked(signer.as_ref(), &new_claim, sig.len(), true).map_err(|e| format!("re-sign: {e:?}"))?;
+        *sig = new_sig;
+        Ok(())
+    }
+}
+
+/// Sign with no_embed: returns (asset bytes unchanged, manifest store bytes)
+fn sign_sidecar(def: &str, redactions: &[String], src: &[u8], first: bool) -> Result<(Vec<u8>, Vec<u8>), String> {
+    let r = par::guard(|| -> c2pa::Result<(Vec<u8>, Vec<u8>)> {
+        let mut b = Builder::from_context(sdk::ctx()).with_definition(def)?;
+        b.set_intent(if first { BuilderIntent::Create(c2pa::DigitalSourceType::Empty) } else { BuilderIntent::Edit });
+        b.set_no_embed(true);
+        if !redactions.is_empty() {
+            b.definition.redactions = Some(redactions.to_vec());
+            for r in redactions {
+                b.add_action(json!({"action":"c2pa.redacted","reason":"c2pa.PII.present","parameters":{"redacted": r}}))?;
+            }
+        }
+        let signer = sdk::fixture_signer("ed25519");
+        let mut dst = Cursor::new(Vec::new());
+        let m = b.sign(signer.as_ref(), MIME, &mut Cursor::new(src), &mut dst)?;
+        Ok((dst.into_inner(), m))
+    });
+    match r {
+        Err(p) => Err(format!("panic {p}")),
+        Ok(Err(e)) => Err(format!("{e:?}")),
+        Ok(Ok(x)) => Ok(x),
+    }
+}
+
+fn read_detached(store: &[u8], asset: &[u8]) -> (String, Vec<String>) {
+    match par::guard(|| Reader::from_context(sdk::ctx()).with_manifest_data_and_stream(store, MIME, Cursor::new(asset))) {
+        Err(p) => (format!("PANIC {p}"), vec![]),
+        Ok(Err(e)) => (format!("Err({})", sdk::err_kind(&e)), vec![]),
+        Ok(Ok(r)) => {
+            let mut f = vec![];
+            if let Some(v) = r.validation_results().and_then(|v| serde_json::to_value(v).ok()) {
+                collect_failures(&v, false, &mut f);
+            }
+            f.sort();
+            f.dedup();
+            (sdk::state_name(r.validation_state()).to_string(), f)
+        }
+    }
+}
+
+fn store_parses(store: &[u8]) -> bool {
+    par::guard(|| c2pa::verif_hooks::store_from_jumbf(store, &sdk::ctx()).is_ok()).unwrap_or(false)
+}
+
+pub fn run(run: &Run, replay: Option<&Value>) {
+    let k: usize = run.tier.pick(3, 4);
+    run.rule(
+        "K redactable assertions per manifest (K=3 quick, 4 thorough; custom CBOR assertions and one schema.org assertion, each with a unique marker payload). \
+         (1) A<-B: every subset of A's; A<-B<-C: every S1 (B redacts from A) x every subset of A\\S1 x every subset of B's (C redacts); diamond A<-{B1:S1,B2:S2}<-C:S3 \
+         for every S1,S2 and every S3 of assertions still present in both copies. (2) disallowed targets {A's actions, A's hard binding, own assertion, unresolvable} x every \
+         subset of allowed targets through the Builder, and the same plus an allowed control crafted at byte level (claim edited + re-signed, box deleted). \
+         (3) deletion of every assertion box of A and of B in A<-B stores, without and with a legitimate redaction of another assertion. \
+         non-trivial = cases with at least one redaction, disallowed target or deleted box.",
+    );
+    run.assume("signing errors of the Builder are outcomes, not violations (the property speaks about outputs); at least the linear-chain cases must sign, else machinery failure");
+    run.assume("in the diamond only the redactions requested by the signing manifest C are required to be absent from the output; payloads redacted by only one of B1/B2 may legitimately survive in the other copy (recorded as outcome). When C merges the two copies of A it removes such one-sided assertions from the other copy itself, so C's list may additionally contain URIs from S1 xor S2 (and nothing else)");
+    run.assume("byte-level cases use detached stores (Builder::set_no_embed) read with Reader::with_manifest_data_and_stream, so a JUMBF edit needs no container fix-up; the edited store must still parse with Store::from_jumbf");
+
+    let jpeg = kit::assets::jpeg();
+    // replay: the whole enumeration is re-created (labels are fresh on every run) but only the recorded case is executed and judged
+    let want: Option<Value> = replay.cloned();
+    let skip = |case: &Value| want.as_ref().map(|w| w != case).unwrap_or(false);
+    if let Some(w) = &want {
+        println!("replay of case {w}");
+    }
+
+    // ---------------- seed A ------------------------------------------------------------------------
+    let a_out = match sign_step(&definition("A", k, None), &[], &[], &jpeg, true) {
+        Ok(Ok(o)) => o,
+        other => kit::ev::machinery(format!("C20: cannot sign seed A: {:?}", other.map(|r| r.map(|_| ()).map_err(|e| format!("{e:?}"))))),
+    };
+    let a_rb = read_back(&a_out).unwrap_or_else(|e| kit::ev::machinery(format!("C20: seed A unreadable: {e}")));
+    if a_rb.state != "Valid" && a_rb.state != "Trusted" {
+        kit::ev::machinery(format!("C20: seed A reads {} {:?}", a_rb.state, a_rb.failures));
+    }
+    // determinism: same read twice
+    let a_rb2 = read_back(&a_out).unwrap_or_else(|e| kit::ev::machinery(format!("C20: seed A unreadable: {e}")));
+    if a_rb2.state != a_rb.state || a_rb2.failures != a_rb.failures {
+        kit::ev::machinery("C20: reading seed A twice differs");
+    }
+    run.evals(3);
+    let a_label = a_rb.active_label.clone();
+    for i in 0..k {
+        if !contains(&a_out, marker("A", i).as_bytes()) {
+            kit::ev::machinery("C20: marker payload not found in seed A (payload encoding changed?)");
+        }
+    }
+    let a_uri = |i: usize| uri(&a_label, &alabel("A", i));
+
+    // ---------------- (1a) A <- B, every subset -------------------------------------------------------
+    let signed_chain = Mutex::new(0u64);
+    let b_outs: Mutex<Vec<Option<(Vec<u8>, String)>>> = Mutex::new(vec![None; 1usize << k]);
+    run.space("A<-B: subsets of A's redactable assertions", 1u64 << k, true);
+    par::for_each_index(1u64 << k, |s1| {
+        let s1 = s1 as u32;
+        let red: Vec<String> = subset(s1, k).into_iter().map(a_uri).collect();
+        let case = json!({"part":"chain2","s1":s1});
+        let judged = !skip(&case);
+        if judged {
+            run.eval();
+            if s1 != 0 {
+                run.nontrivial(format!("chain2/{s1}"));
+            }
+        }
+        match sign_step(&definition("B", k, None), &red, &[], &a_out, false) {
+            Err(p) => {
+                if judged {
+                    run.violation("panic part=chain2".to_string(), format!("Builder::sign panicked: {p}"), case)
+                }
+            }
+            Ok(Err(e)) => {
+                if judged {
+                    run.outcome(format!("chain2:sign-error:{}", sdk::err_kind(&e)));
+                }
+            }
+            Ok(Ok(out)) => {
+                *signed_chain.lock().unwrap() += 1;
+                let requested: Vec<(String, usize, String)> = subset(s1, k).into_iter().map(|i| ("A".to_string(), i, a_uri(i))).collect();
+                let present: Vec<(String, usize)> = (0..k).filter(|i| s1 >> i & 1 == 0).map(|i| ("A".to_string(), i)).chain((0..k).map(|i| ("B".to_string(), i))).collect();
+                if judged {
+                    judge_step(run, "chain2", &out, &requested, &[], &present, &case, true, &BTreeSet::new());
+                }
+                if let Ok(rb) = read_back(&out) {
+                    b_outs.lock().unwrap()[s1 as usize] = Some((out, rb.active_label));
+                }
+            }
+        }
+    });
+    if *signed_chain.lock().unwrap() == 0 {
+        kit::ev::machinery("C20: no A<-B case could be signed");
+    }
+    let b_outs = b_outs.into_inner().unwrap();
+    run.sample(json!({"part":"chain2","a_label":a_label,"redaction_uri_example":a_uri(0),"signed": *signed_chain.lock().unwrap()}));
+
+    // ---------------- (1b) A <- B <- C ----------------------------------------------------------------
+    let mut c_cases: Vec<(u32, u32, u32)> = vec![];
+    for s1 in 0..(1u32 << k) {
+        for s2 in 0..(1u32 << k) {
+            if s2 & s1 != 0 {
+                continue;
+            }
+            for t in 0..(1u32 << k) {
+                c_cases.push((s1, s2, t));
+            }
+        }
+    }
+    run.space("A<-B<-C: S1 (B from A) x S2 subset of A\\S1 x T subset of B (C redacts)", c_cases.len() as u64, true);
+    let c_signed = Mutex::new(0u64);
+    par::for_each(&c_cases, |(s1, s2, t)| {
+        let case = json!({"part":"chain3","s1":s1,"s2":s2,"t":t});
+        if skip(&case) {
+            return;
+        }
+        let Some((b_out, b_label)) = &b_outs[*s1 as usize] else { return };
+        run.eval();
+        if *s2 != 0 || *t != 0 {
+            run.nontrivial(format!("chain3/{s1}/{s2}/{t}"));
+        }
+        let mut requested: Vec<(String, usize, String)> = subset(*s2, k).into_iter().map(|i| ("A".to_string(), i, a_uri(i))).collect();
+        requested.extend(subset(*t, k).into_iter().map(|i| ("B".to_string(), i, uri(b_label, &alabel("B", i)))));
+        let red: Vec<String> = requested.iter().map(|r| r.2.clone()).collect();
+        match sign_step(&definition("C", k, None), &red, &[], b_out, false) {
+            Err(p) => run.violation("panic part=chain3".to_string(), format!("Builder::sign panicked: {p}"), case),
+            Ok(Err(e)) => run.outcome(format!("chain3:sign-error:{}", sdk::err_kind(&e))),
+            Ok(Ok(out)) => {
+                *c_signed.lock().unwrap() += 1;
+                let gone: Vec<(String, usize)> = subset(*s1, k).into_iter().map(|i| ("A".to_string(), i)).collect();
+                let mut present: Vec<(String, usize)> = (0..k).filter(|i| (s1 | s2) >> i & 1 == 0).map(|i| ("A".to_string(), i)).collect();
+                present.extend((0..k).filter(|i| t >> i & 1 == 0).map(|i| ("B".to_string(), i)));
+                present.extend((0..k).map(|i| ("C".to_string(), i)));
+                judge_step(run, "chain3", &out, &requested, &gone, &present, &case, true, &BTreeSet::new());
+                // B's own list must still be what B requested
+                if let Ok(Ok(r)) = par::guard(|| Reader::from_context(sdk::ctx()).with_stream(MIME, Cursor::new(&out))) {
+                    let want: BTreeSet<String> = subset(*s1, k).into_iter().map(a_uri).collect();
+                    let got: BTreeSet<String> = r.get_manifest(b_label).and_then(|m| m.redactions()).map(|r| r.iter().cloned().collect()).unwrap_or_default();
+                    if r.get_manifest(b_label).is_some() && want != got {
+                        run.violation(
+                            format!("ancestor-redactions-list-changed shape=chain3 requested={} reported={}", want.len(), got.len()),
+                            format!("manifest B requested {:?} but reports {:?} once it is an ingredient of C", want, got),
+                            case.clone(),
+                        );
+                    }
+                }
+            }
+        }
+    });
+    if *c_signed.lock().unwrap() == 0 && want.is_none() {
+        kit::ev::machinery("C20: no A<-B<-C case could be signed");
+    }
+
+    // ---------------- (1c) diamond ---------------------------------------------------------------------
+    let mut d_cases: Vec<(u32, u32, u32)> = vec![];
+    for s1 in 0..(1u32 << k) {
+        for s2 in 0..(1u32 << k) {
+            for s3 in 0..(1u32 << k) {
+                if s3 & (s1 | s2) == 0 {
+                    d_cases.push((s1, s2, s3));
+                }
+            }
+        }
+    }
+    run.space("diamond A<-{B1:S1,B2:S2}<-C:S3, S3 disjoint from S1 and S2", d_cases.len() as u64, true);
+    par::for_each(&d_cases, |(s1, s2, s3)| {
+        let case = json!({"part":"diamond","s1":s1,"s2":s2,"s3":s3});
+        if skip(&case) {
+            return;
+        }
+        let (Some((b1, _)), Some((b2, _))) = (&b_outs[*s1 as usize], &b_outs[*s2 as usize]) else { return };
+        run.eval();
+        run.nontrivial(format!("diamond/{s1}/{s2}/{s3}"));
+        let requested: Vec<(String, usize, String)> = subset(*s3, k).into_iter().map(|i| ("A".to_string(), i, a_uri(i))).collect();
+        let red: Vec<String> = requested.iter().map(|r| r.2.clone()).collect();
+        match sign_step(&definition("C", k, None), &red, &[b2.as_slice()], b1, false) {
+            Err(p) => run.violation("panic part=diamond".to_string(), format!("Builder::sign panicked: {p}"), case),
+            Ok(Err(e)) => run.outcome(format!("diamond:sign-error:{}", sdk::err_kind(&e))),
+            Ok(Ok(out)) => {
+                // payloads nobody redacted must still be there
+                let present: Vec<(String, usize)> = (0..k).filter(|i| (s1 | s2 | s3) >> i & 1 == 0).map(|i| ("A".to_string(), i)).collect();
+                // merging two differently redacted copies of A makes C itself remove the one-sided assertions from the other copy; C may list those
+                let may: BTreeSet<String> = subset(s1 ^ s2, k).into_iter().map(a_uri).collect();
+                judge_step(run, "diamond", &out, &requested, &[], &present, &case, true, &may);
+                for i in subset(s1 ^ s2, k) {
+                    run.outcome(format!("diamond:one-sided-redaction-payload-{}", if contains(&out, marker("A", i).as_bytes()) { "survives" } else { "gone" }));
+                }
+                for i in subset(s1 & s2, k) {
+                    if contains(&out, marker("A", i).as_bytes()) {
+                        run.violation(
+                            "earlier-redacted-data-reappears shape=diamond owner=A".to_string(),
+                            format!("payload of {} redacted by BOTH B1 and B2 is present in C's output", alabel("A", i)),
+                            case.clone(),
+                        );
+                    }
+                }
+            }
+        }
+    });
+
+    // ---------------- (2a) disallowed targets through the Builder ----------------------------------------
+    // discover A's protected assertion labels from the report
+    let a_refs: Vec<String> = par::guard(|| {
+        Reader::from_context(sdk::ctx())
+            .with_stream(MIME, Cursor::new(&a_out))
+            .ok()
+            .and_then(|r| r.active_manifest().map(|m| m.assertion_references().map(|h| h.url()).collect::<Vec<_>>()))
+            .unwrap_or_default()
+    })
+    .unwrap_or_default();
+    let a_actions = a_refs.iter().find(|u| u.contains("c2pa.actions")).cloned().unwrap_or_else(|| kit::ev::machinery("C20: seed A has no actions assertion"));
+    let a_hash = a_refs.iter().find(|u| u.contains("c2pa.hash.")).cloned().unwrap_or_else(|| kit::ev::machinery("C20: seed A has no hard binding assertion"));
+    let own_label = "urn:c2pa:0f0e0d0c-0b0a-4009-8807-060504030201";
+    let disallowed: Vec<(&str, String, Option<&str>)> = vec![
+        ("actions", a_actions.clone(), None),
+        ("hard-binding", a_hash.clone(), None),
+        ("own-assertion", uri(own_label, &alabel("B", 0)), Some(own_label)),
+    ];
+    let mut dis_cases: Vec<(usize, u32)> = vec![];
+    for d in 0..disallowed.len() {
+        for s in 0..(1u32 << k) {
+            dis_cases.push((d, s));
+        }
+    }
+    run.space("Builder: disallowed target x every subset of allowed targets (A<-B)", dis_cases.len() as u64, true);
+    par::for_each(&dis_cases, |(d, s)| {
+        let (name, target, own) = &disallowed[*d];
+        let case = json!({"part":"disallowed-builder","target":name,"s":s});
+        if skip(&case) {
+            return;
+        }
+        run.eval();
+        run.nontrivial(format!("disb/{name}/{s}"));
+        let mut red: Vec<String> = subset(*s, k).into_iter().map(a_uri).collect();
+        red.push(target.clone());
+        match sign_step(&definition("B", k, *own), &red, &[], &a_out, false) {
+            Err(p) => run.violation(format!("panic part=disallowed-builder target={name}"), format!("Builder::sign panicked: {p}"), case),
+            Ok(Err(e)) => run.outcome(format!("disallowed-builder:{name}:sign-error:{}", sdk::err_kind(&e))),
+            Ok(Ok(out)) => match read_back(&out) {
+                Err(e) => run.outcome(format!("disallowed-builder:{name}:read-{}", e.split(' ').next().unwrap_or(""))),
+                Ok(rb) => {
+                    run.outcome(format!("disallowed-builder:{name}:{}", rb.state));
+                    if rb.state == "Valid" || rb.state == "Trusted" {
+                        run.violation(
+                            format!("disallowed-redaction-valid via=builder target={name}"),
+                            format!("manifest redacting {target} was signed and reads {}", rb.state),
+                            case,
+                        );
+                    }
+                }
+            },
+        }
+    });
+
+    // ---------------- (2b)+(3) byte-level cases on detached stores -----------------------------------------
+    // B takes the EMBEDDED A as source but writes a detached store; the asset B binds to is the source stream (a_out) unchanged.
+    let mk_b = |red: &[String], own: Option<&str>| sign_sidecar(&definition("B", k, own), red, &a_out, false);
+    let (b_asset, b_store) = mk_b(&[], Some(own_label)).unwrap_or_else(|e| kit::ev::machinery(format!("C20: detached A<-B: {e}")));
+    let (st, f) = read_detached(&b_store, &b_asset);
+    run.eval();
+    if st != "Valid" && st != "Trusted" {
+        kit::ev::machinery(format!("C20: detached A<-B seed reads {st} {f:?}"));
+    }
+    let tree = StoreTree::parse(&b_store).unwrap_or_else(|e| kit::ev::machinery(format!("C20: independent JUMBF parser cannot interpret the seed store: {e}")));
+    let manifests = tree.manifests();
+    if manifests.len() != 2 || !manifests.contains(&a_label) || !manifests.contains(&own_label.to_string()) {
+        kit::ev::machinery(format!("C20: detached A<-B store holds {:?}, expected A ({a_label}) and B", manifests));
+    }
+    run.sample(json!({"part":"detached-seed","manifests":manifests,"assertions_of_A":tree.assertions(&a_label),"assertions_of_B":tree.assertions(own_label)}));
+
+    // (2b) crafted redactions: target deleted + listed in B's claim, B re-signed
+    let a_assertions = tree.assertions(&a_label);
+    let b_assertions = tree.assertions(own_label);
+    struct Crafted {
+        name: String,
+        manifest: String,
+        assertion: String,
+        allowed: bool,
+    }
+    let mut crafted: Vec<Crafted> = vec![];
+    for al in &a_assertions {
+        let allowed = !(al.starts_with("c2pa.actions") || al.starts_with("c2pa.hash."));
+        // ingredient/other structural assertions of A are neither "allowed controls" nor named by the property: skip expectation
+        let is_marker = (0..k).any(|i| alabel("A", i) == *al);
+        if allowed && !is_marker {
+            continue;
+        }
+        crafted.push(Crafted { name: format!("A/{al}"), manifest: a_label.clone(), assertion: al.clone(), allowed });
+    }
+    for al in &b_assertions {
+        crafted.push(Crafted { name: format!("own/{al}"), manifest: own_label.to_string(), assertion: al.clone(), allowed: false });
+    }
+    run.space("crafted (claim edited, box deleted, re-signed) redaction of each assertion of A (allowed ones are controls) and of each own assertion", crafted.len() as u64, true);
+    let controls_valid = Mutex::new(0u64);
+    par::for_each(&crafted, |c| {
+        let case = json!({"part":"crafted","manifest": if c.manifest == a_label {"A"} else {"own"},"assertion":c.assertion});
+        if skip(&case) {
+            return;
+        }
+        run.eval();
+        run.nontrivial(format!("crafted/{}", c.name));
+        let mut t = StoreTree::parse(&b_store).unwrap();
+        let r = t.delete_assertion(&c.manifest, &c.assertion).and_then(|_| t.add_redactions_and_resign(own_label, &[uri(&c.manifest, &c.assertion)]));
+        if let Err(e) = r {
+            kit::ev::machinery(format!("C20: crafting {}: {e}", c.name));
+        }
+        let bytes = t.bytes();
+        if !store_parses(&bytes) {
+            kit::ev::machinery(format!("C20: crafted store for {} no longer parses", c.name));
+        }
+        let (st, f) = read_detached(&bytes, &b_asset);
+        let accepted = st == "Valid" || st == "Trusted";
+        let kind = if c.allowed { "allowed-control" } else if c.manifest == a_label { "protected" } else { "own" };
+        run.outcome(format!("crafted:{kind}:{st}"));
+        if c.allowed {
+            if accepted {
+                *controls_valid.lock().unwrap() += 1;
+            } else {
+                kit::ev::machinery(format!("C20: crafted redaction of allowed assertion {} reads {st} {f:?} (crafting is wrong)", c.name));
+            }
+        } else if accepted {
+            let tgt = if c.assertion.starts_with("c2pa.actions") { "actions" } else if c.assertion.starts_with("c2pa.hash.") { "hard-binding" } else { "own-assertion" };
+            run.violation(
+                format!("disallowed-redaction-valid via=crafted target={tgt} label={}", c.assertion),
+                format!("store whose active manifest redacts {} ({}) reads {st}", c.name, uri(&c.manifest, &c.assertion)),
+                case,
+            );
+        }
+    });
+    if *controls_valid.lock().unwrap() == 0 && want.is_none() {
+        kit::ev::machinery("C20: no crafted allowed-redaction control was Valid (non-vacuity)");
+    }
+
+    // (3) deletion without redaction entry; base stores: no redaction, and each single legitimate redaction of A
+    let mut bases: Vec<(String, Vec<u8>, Vec<u8>)> = vec![("none".to_string(), b_asset.clone(), b_store.clone())];
+    for i in 0..k {
+        match mk_b(&[a_uri(i)], Some(own_label)) {
+            Ok((asset, store)) => {
+                let (st, f) = read_detached(&store, &asset);
+                run.eval();
+                if st != "Valid" && st != "Trusted" && !skip(&json!({"part":"detached-base","i":i})) {
+                    run.violation(
+                        format!("invalid-after-redaction shape=detached codes={}", f.join(",")),
+                        format!("detached A<-B redacting {} reads {st} {f:?}", alabel("A", i)),
+                        json!({"part":"detached-base","i":i}),
+                    );
+                    continue;
+                }
+                bases.push((format!("A{i}"), asset, store));
+            }
+            Err(e) => {
+                run.outcome(format!("detached-base:sign-error:{}", e.split('(').next().unwrap_or("")));
+            }
+        }
+    }
+    let mut del_cases: Vec<(usize, String, String)> = vec![];
+    for (bi, (_, _, store)) in bases.iter().enumerate() {
+        let t = StoreTree::parse(store).unwrap_or_else(|e| kit::ev::machinery(format!("C20: base store: {e}")));
+        for m in t.manifests() {
+            for a in t.assertions(&m) {
+                del_cases.push((bi, m.clone(), a));
+            }
+        }
+    }
+    run.space("deletion of one assertion box without redaction entry: every assertion of every manifest x base stores {no redaction, each single legitimate redaction}", del_cases.len() as u64, true);
+    par::for_each(&del_cases, |(bi, m, a)| {
+        let (bname, asset, store) = &bases[*bi];
+        let who = if *m == a_label { "A" } else { "B" };
+        let case = json!({"part":"delete","base":bname,"manifest":who,"assertion":a});
+        if skip(&case) {
+            return;
+        }
+        run.eval();
+        run.nontrivial(format!("delete/{bname}/{who}/{a}"));
+        let mut t = StoreTree::parse(store).unwrap();
+        if let Err(e) = t.delete_assertion(m, a) {
+            kit::ev::machinery(format!("C20: deleting {who}/{a}: {e}"));
+        }
+        let bytes = t.bytes();
+        if !store_parses(&bytes) {
+            run.outcome("delete:store-does-not-parse");
+            return;
+        }
+        let (st, _f) = read_detached(&bytes, asset);
+        run.outcome(format!("delete:{who}:{st}"));
+        if st.starts_with("PANIC") {
+            run.violation(format!("panic part=delete manifest={who}"), st.clone(), case.clone());
+        }
+        if st == "Valid" || st == "Trusted" {
+            let cls = if a.starts_with("c2pa.actions") { "actions" } else if a.starts_with("c2pa.hash.") { "hard-binding" } else if a.starts_with("c2pa.ingredient") { "ingredient" } else { "other" };
+            run.violation(
+                format!("undeclared-removal-valid manifest={who} assertion-class={cls} base-redaction={}", if bname == "none" { "none" } else { "one" }),
+                format!("assertion {a} of manifest {who} deleted without a redaction entry (base store: redaction {bname}) and the store reads {st}"),
+                case,
+            );
+        }
+    });
 }
